@@ -9,6 +9,7 @@ import FendModel.Model.StrLit
 import FendModel.Model.Date
 import FendModel.Model.IntFns
 import FendModel.Model.SerializeCanon
+import FendModel.Model.Preview
 
 open Fend Fend.Proto
 
@@ -223,6 +224,26 @@ def serdeLine (line : String) : String :=
       let same := re == bytes.take re.length
       s!"ok {vars.length} {if same then 1 else 0} {packedHex (Fend.Ser.serVars (Fend.Ser.canonVars vars))}"
 
+/-- `<input hex>|E` or `<input hex>|O:<unit 0/1>:<text hex>`: what the preview returns for that raw result -/
+def previewLine (line : String) : String :=
+  match line.trimAscii.toString.splitOn "|" with
+  | [inp, raw] =>
+    match parseHexCps inp with
+    | none => "bad-op"
+    | some icps =>
+      let input := String.ofList (icps.map Char.ofNat)
+      let out := Fend.Preview.evaluatePreview (V := Unit)
+        (fun _ c =>
+          let res : Option (String × Bool) := match raw.splitOn ":" with
+            | ["O", u, t] => (parseHexCps t).map fun cps => (String.ofList (cps.map Char.ofNat), u == "1")
+            | _ => none
+          { result := res, ctx := c, trace := [] })
+        input ⟨none, (), false, none, false, none, [], false⟩
+      match out.result with
+      | none => ""
+      | some r => showCps (r.1.toList.map Char.toNat)
+  | _ => "bad-op"
+
 partial def loop (h : IO.FS.Stream) (out : IO.FS.Stream) (f : String → String) : IO Unit := do
   let line ← h.getLine
   if line.isEmpty then return ()
@@ -242,4 +263,5 @@ def main (args : List String) : IO UInt32 := do
   | ["date"] => loop stdin stdout dateLine; return 0
   | ["intfn"] => loop stdin stdout intfnLine; return 0
   | ["serde"] => loop stdin stdout serdeLine; return 0
+  | ["preview"] => loop stdin stdout previewLine; return 0
   | _ => IO.eprintln "usage: fend_model_driver <stream>"; return 2
